@@ -14,7 +14,7 @@
    by `error_flag`, at which `context.linenum` each message is located, the include chain printed
    before it, the per-file and total error counts, whether the report runs, the exit status.
    Definitions only; proofs are in Proofs/ErrorsProofs.v. *)
-From LedgerV Require Import Base.Prelude Gen.StatusOfCount Gen.CheckingStyle.
+From LedgerV Require Import Base.Prelude Gen.StatusOfCount Gen.CheckingStyle Gen.NameChecks.
 Local Open Scope Z_scope.
 
 (* ---- input shape ---------------------------------------------------------------------- *)
@@ -334,17 +334,33 @@ Definition unknown_name_reaction (o : opts) (nk : name_kind) : reaction :=
   | _ => style_reaction (checking_style o)
   end.
 
+(* where on a posting line a commodity can stand besides the amount itself; whether parse_post
+   hands it to journal_t::register_commodity is regenerated from the source (Gen/NameChecks.v) *)
+Inductive comm_pos : Type := PCost | PLotPrice | PAssigned.
+
+Definition position_checked (p : comm_pos) : bool :=
+  match p with
+  | PCost => src_registers_cost_commodity
+  | PLotPrice => src_registers_lot_price_commodity
+  | PAssigned => src_registers_assigned_commodity
+  end.
+
 (* what the harness says about a line before the options are known *)
 Inductive ann : Type :=
 | AThrow (k : Z)                          (* rejected whatever the options: class k *)
 | AUnknown (nk : name_kind) (k : Z)       (* uses an undeclared name *)
-| ABalAssert (k : Z).                     (* carries a balance assertion that is off *)
+| ABalAssert (k : Z)                      (* carries a balance assertion that is off *)
+| AUnknownAt (p : comm_pos) (k : Z).      (* an undeclared commodity as cost / lot price / after `=` *)
 
 Definition resolve_ann (o : opts) (a : ann) : option Z :=
   match a with
   | AThrow k => Some k
   | AUnknown nk k => match unknown_name_reaction o nk with RError => Some k | _ => None end
   | ABalAssert k => match checking_style o with SPermissive => None | _ => Some k end
+  | AUnknownAt p k =>
+      if position_checked p
+      then match unknown_name_reaction o NCommodity with RError => Some k | _ => None end
+      else None
   end.
 
 (* the checks of one line happen in the order given: the first that throws is the line's error *)
